@@ -216,3 +216,38 @@ Proof.
       pose proof (@nnb_finite_R 53 1024 (p_total p) Ft Hn). lra.
     + split; [exact FM|]. rewrite RM. lra.
 Qed.
+
+(* ---------- a tick distance clamped to the length itself: at most one tick ---------- *)
+
+Lemma double_format (x : F64) : fin x -> generic_format radix2 fexp64 (B2R x + B2R x).
+Proof.
+  intros Fx. pose proof (generic_format_B2R 53 1024 x) as G.
+  change fexp64 with (FLT_exp (3 - 1024 - 53) 53) in *.
+  apply FLT_format_generic in G; [|reflexivity]. destruct G as [f Hf Hm He].
+  apply generic_format_FLT. exists (Float radix2 (Fnum f) (Fexp f + 1)).
+  - rewrite Hf. unfold F2R. cbn [Fnum Fexp]. rewrite bpow_plus.
+    replace (bpow radix2 1) with 2 by (cbn; lra). lra.
+  - exact Hm.
+  - cbn [Fexp]. lia.
+Qed.
+
+Lemma le_double_false (len : F64) : fin len -> 0 < B2R len -> D.le (D.add len len) len = false.
+Proof.
+  intros Fl Hpos. destruct (D.le (D.add len len) len) eqn:E; [|reflexivity]. exfalso.
+  assert (Hn : nn64 len = true) by (apply (@finite_R_nnb 53 1024); [exact Fl|lra]).
+  destruct (le_finite_nn _ len Fl (nn64_add len len Hn Hn) E) as (Fs & Rs).
+  rewrite (add_R len len Fl Fl Fs) in Rs.
+  rewrite round_generic in Rs; [lra|apply valid_rnd_N|apply double_format; exact Fl].
+Qed.
+
+Lemma span_dists_at_len (len mdfe : F64) (tf : nat) : fin len -> 0 < B2R len -> (2 <= tf)%nat ->
+  exists ds, span_dists ops64 tf len mdfe len = Done ds /\ (length ds <= 1)%nat.
+Proof.
+  intros Fl Hpos Htf. unfold span_dists.
+  destruct (f_lt ops64 (c_zero ops64) len); [|exists []; split; [reflexivity|cbn; lia]].
+  destruct tf as [|[|k]]; try lia. cbn [tick_dists].
+  destruct (f_le ops64 len len && negb (f_le ops64 (f_sub ops64 len mdfe) len))%bool;
+    [|exists []; split; [reflexivity|cbn; lia]].
+  cbn [ops64 f_add f_le]. rewrite (le_double_false len Fl Hpos). cbn [andb obind].
+  exists [len]. split; [reflexivity|cbn; lia].
+Qed.
